@@ -88,6 +88,11 @@ pub fn judge_assoc() -> Verdict {
     if nan == nan || !(nan != nan) {
         return Verdict::fail("NAN", "assoc", &args, "NAN == NAN".into(), "NAN compares unequal to itself".into(), "wrong_constant");
     }
+    // ... under the ordering comparison as well: a comparison that answers Equal (hence <= and >= both true) says "equal"
+    #[allow(clippy::eq_op)]
+    if nan.partial_cmp(&nan) == Some(core::cmp::Ordering::Equal) || (nan <= nan && nan >= nan) {
+        return Verdict::fail("NAN", "assoc", &args, format!("NAN.partial_cmp(&NAN) = {:?}, NAN <= NAN: {}, NAN >= NAN: {}", nan.partial_cmp(&nan), nan <= nan, nan >= nan), "NAN compares unequal to itself".into(), "wrong_constant");
+    }
     if TF::INFINITY.is_valid() || TF::NEG_INFINITY.is_valid() {
         return Verdict::fail("INFINITY", "assoc", &args, "is_valid() == true".into(), "INFINITY / NEG_INFINITY are not valid".into(), "wrong_constant");
     }
